@@ -7,7 +7,13 @@ use vp::props::{c02, c16};
 fuzz_target!(|data: &[u8]| {
     let mut u = Unstructured::new(data);
     let Ok(sel) = u.arbitrary::<u8>() else { return };
-    if sel % 2 == 0 {
+    let only = std::env::var("FUZZ_PROP").unwrap_or_default();
+    let first = match only.as_str() {
+        "C02" => true,
+        "C16" => false,
+        _ => sel % 2 == 0,
+    };
+    if first {
         if let Ok(case) = vp::decode::c02_table_case(&mut u) {
             vp::fuzzrt::fuzz_one::<c02::Table>("C02", &case);
         }
